@@ -156,6 +156,14 @@ def opState (w : World) : World :=
   let c := (w.conns.filter (·.inComms)).length
   w.emit s!"state adaptors={a} http={if w.haveServer then h else 0} comms={if w.haveServer then c else 0} pending={b2s w.acceptCancelled}"
 
+/-- executable form of the history invariant of `ViaProofs/ConnLemmas.lean` (debug operation `inv`) -/
+def invB (w : World) : Bool :=
+  w.conns.all fun c =>
+    c.connectedSeen ≤ 1 && c.disconnectedSeen ≤ c.connectedSeen && c.otherAfterDisc == 0 &&
+    (!c.inHttp || (c.connectedSeen == 1 && c.disconnectedSeen == 0 && c.inComms && c.httpAlive)) &&
+    (!c.inComms || c.alive) && (!c.httpAlive || c.alive) && (c.connectedSeen != 0 || !c.inHttp) &&
+    (!c.alive || c.inComms)
+
 /-- one script line -/
 def simOp (w : World) (ws : List String) : World :=
   match ws with
@@ -179,6 +187,7 @@ def simOp (w : World) (ws : List String) : World :=
   | ["srv-destroy"] => if w.haveServer then { gc (serverClose FUEL w true) with haveServer := false } else w.emit "bad-op"
   | ["poll"] => { w with acceptCancelled := false }
   | ["state"] => opState w
+  | ["inv"] => w.emit s!"inv {b2s (invB w)}"
   | op :: c :: rest =>
     if op.startsWith "app-" then
       match connIndex c with
